@@ -4,8 +4,8 @@ point) used to confirm that the monitors fire.  file is relative to /repo/src.""
 MUTANTS = []
 
 
-def M(id, prop, file, old, new, what, count=1):
-    MUTANTS.append(dict(id=id, prop=prop, file=file, old=old, new=new, what=what, count=count))
+def M(id, prop, file, old, new, what, count=1, tier="quick"):
+    MUTANTS.append(dict(id=id, prop=prop, file=file, old=old, new=new, what=what, count=count, tier=tier))
 
 
 # ---------------------------------------------------------------- C19
@@ -218,7 +218,8 @@ M("c08-ls-keeps-stale-revert", "C08", "flexstack/geonet/location_table.py",
 M("c16-dereg-subs-outside-lock-revert", "C16", "flexstack/facilities/local_dynamic_map/ldm_service.py",
   "            # In the same critical section: nobody sees the consumer gone but part of its subscriptions left.\n            for subscription in stale:\n                self.remove_subscription(subscription)\n        return registered",
   "        for subscription in stale:\n            self.remove_subscription(subscription)\n        return registered",
-  "revert: deregistration removes the consumer's subscriptions outside the lock, one by one")
+  "revert: deregistration removes the consumer's subscriptions outside the lock, one by one (needs the thorough tier: found there in 438 of 1.7 M schedules, missed by the quick budget)",
+  tier="thorough")
 
 # ---------------------------------------------------------------- C09
 M("c09-no-sig", "C09", "flexstack/security/certificate.py",
